@@ -64,7 +64,8 @@ impl Scanner {
         } else {
             self.ch = self.input[self.read_position];
         }
-        self.position = self.read_position;
+        // never let 'position' run past the end of the input
+        self.position = self.read_position.min(self.input.len());
         self.read_position += 1;
     }
 
@@ -179,7 +180,7 @@ impl Scanner {
         // Check for a byte literal
         if self.ch == '\'' && identifier == "b" {
             self.read_char();
-            let the_byte = self.input[self.position];
+            let the_byte = self.ch;
             // Consume ending quote (')
             self.read_char();
             if self.ch == '\'' {
@@ -309,7 +310,7 @@ impl Scanner {
         let position = self.position;
         // move past the opening quote (') character
         self.read_char();
-        let the_char = self.input[self.position].to_string();
+        let the_char = self.ch.to_string();
         self.read_char();
         if self.ch == '\'' {
             return self.make_token(TokenType::Char, &the_char);
